@@ -108,12 +108,27 @@ def run_vt(case, seed):
     multi = 0
     accesses = 0
     schedules = 1
-    for T in case["teams"]:
+    passes = [(T, False) for T in case["teams"]]
+    forced_runs = 0
+    k_pass = 0
+    while k_pass < len(passes):
+        T, forced = passes[k_pass]
+        k_pass += 1
         H.team(T)
+        H.force_if(forced)
         H.detect(1)
         H.reset()
-        out = fn(p, seed)
+        try:
+            out = fn(p, seed)
+        finally:
+            H.force_if(False)
         st = H.stats()
+        if not forced and st["if_serial"] and T in (2, 4, case["teams"][-1]):
+            # some region was serialised by an `if(...)` clause (a size or option threshold): explore it with the full team too
+            passes.append((T, True))
+        if forced:
+            forced_runs += 1
+            tag = case["scenario"] + "/if-clause-overridden"
         trans += 1
         schedules += 1
         accesses += st["accesses"]
@@ -142,7 +157,7 @@ def run_vt(case, seed):
     H.detect(0)
     kern = sorted(H.calls)
     return dict(ok=True, transitions=trans, nontrivial=bool(multi > 0), outcome="ok:%s:%s" % (tag, "parallel" if multi else "no-parallel-work"),
-                count={"instrumented_accesses": accesses, "team_runs_with_parallel_work": multi, "schedules": schedules})
+                count={"instrumented_accesses": accesses, "team_runs_with_parallel_work": multi, "schedules": schedules, "runs_with_if_clause_overridden": forced_runs})
 
 
 def explore_preemptions(H, fn, p, seed, T, ref, cap=120):
